@@ -25,3 +25,11 @@ import VProps.C17
 #print axioms V.C07.no_panic_allowed
 #print axioms V.C14.collect_no_panic
 #print axioms V.C17.splitID_no_panic
+#print axioms V.C18.no_panic_sender_lookup
+#print axioms V.C18.sender_lookup_std
+#print axioms V.C18.sender_lookup_nil_refused
+#print axioms V.C18.no_panic_allowed_nil_querier
+#print axioms V.C18.nil_querier_witnesses
+#print axioms V.C18.no_panic_event_references
+#print axioms V.C18.no_panic_event_references_ids
+#print axioms V.C18.event_references_witnesses
